@@ -1,6 +1,6 @@
 (* Proofs for C05: the datagram path is a map over datagrams; the derived one-shot interface accepts exactly one frame. *)
 From Coq Require Import List Arith Bool Lia.
-From EN Require Import Lib.Bytes Frame.Framer Frame.ReadUntil Frame.OneShot IO.Datagram Proofs.Bytes_proofs Proofs.ReadUntil_proofs.
+From EN Require Import Lib.Bytes Frame.Framer Frame.ReadUntil Frame.OneShot IO.DgramEndpoint Proofs.Bytes_proofs Proofs.ReadUntil_proofs.
 Import ListNotations.
 
 Section DG.
